@@ -1438,7 +1438,7 @@ class DiskRefsContainer(RefsContainer):
         filename = self.refpath(realname)
         self._prepare_loose_ref_path(realname, filename)
         with GitFile(filename, "wb") as f:
-            if os.path.exists(filename) or name in self.get_packed_refs():
+            if os.path.exists(filename) or realname in self.get_packed_refs():
                 f.abort()
                 return False
             try:
